@@ -255,6 +255,9 @@ L4_EXEMPT = {
 def _blocking(ev):
     if ev.kind == 'EXT' and ev.d['name'] in SLEEP_NAMES:
         return 'sleep'
+    if ev.kind == 'FOR' and ev.d['iter'].k == 'param' and ev.d['iter'].a[0] in ('iterable', 'iterator', 'items',
+                                                                                 'values', 'other'):
+        return 'user-iterable'
     if ev.kind == 'UCALL':
         c = ev.d['callee']
         if c.k in ('free', 'param') and c.a[0] in USER_CALLEES:
@@ -289,7 +292,9 @@ def l4(ctx):
             continue
         obs.append(Ob('L4', key, not info['in'],
                       '%s inside a transaction block: every other client of the cache is blocked (or times out) for '
-                      'the whole duration' % info['kind'], info['fn'].loc(info['node']), info['wit']))
+                      'the whole duration%s' % (info['kind'], '; and if the caller\'s iterable raises part-way, the '
+                      'rollback undoes the elements already consumed (a deque keeps them)'
+                      if info['kind'] == 'user-iterable' else ''), info['fn'].loc(info['node']), info['wit']))
     return obs
 
 
